@@ -208,11 +208,13 @@ def _commitment_is_hash_of_bytes(w: World, rep: Report):
         if fi.name != 'commitment' or fi.cls is None or fi.parent is not None:
             continue
         cd = tools.classes.get(fi.cls)
-        fields = [st.target.id for st in cd.body if isinstance(st, ast.AnnAssign) and isinstance(st.target, ast.Name)] \
-            if cd is not None else []
-        # the class that pairs source and byte code (the committed script S itself)
-        if not ({'src', 'bytes'} <= set(fields)):
+        anns = {st.target.id: ast.unparse(st.annotation) for st in cd.body
+                if isinstance(st, ast.AnnAssign) and isinstance(st.target, ast.Name)} if cd is not None else {}
+        # the class that pairs source text and byte code (the committed script S itself): one str field, one bytes field
+        code_fields = [k for k, a in anns.items() if a == 'bytes']
+        if not (len(code_fields) == 1 and any(a == 'str' for a in anns.values())):
             continue
+        code_field = code_fields[0]
         n += 1
         cfg = w.cfg(fi)
         kinds = w.kinds(fi)
@@ -226,11 +228,11 @@ def _commitment_is_hash_of_bytes(w: World, rep: Report):
             for l in kinds.of(r.ast.value, r).leaves():
                 good = (l.tag == 'mcall' and l.method == 'digest' and l.recv.tag == 'call' and l.recv.name == 'sha256'
                         and len(l.recv.args) == 1 and
-                        all(x.tag == 'attr' and x.attr == 'bytes' and kinds.path(x.base) == me
+                        all(x.tag == 'attr' and x.attr == code_field and kinds.path(x.base) == me
                             for x in l.recv.args[0].leaves()))
                 if not good:
                     ok = False
-                    why = (f'a path returns `{ast.unparse(r.ast.value)}` which is not sha256({me}.bytes).digest() computed '
+                    why = (f'a path returns `{ast.unparse(r.ast.value)}` which is not sha256({me}.{code_field}).digest() computed '
                            f'at the time of the call: a stored or memoised commitment goes stale when the byte code '
                            f'changes or the object is copied (dataclasses.replace, +), so locks commit to another script')
                     break
@@ -239,4 +241,4 @@ def _commitment_is_hash_of_bytes(w: World, rep: Report):
         rep.check('C05.R4', f'tools.{fi.cls}.commitment|sha256-of-current-bytes', ok, line=fi.node.lineno,
                   file='tapescript/tools.py', why='' if ok else why)
     if n == 0:
-        raise AnalysisError('no class with src/bytes fields and a commitment() method found in tools.py')
+        raise AnalysisError('no class pairing a str and a bytes field with a commitment() method found in tools.py')
